@@ -411,6 +411,8 @@ class ProgGen:
                 break
             pn = rng.choice(c[:4]) if rng.random() < 0.7 else rng.choice(c)
             role = weighted(rng, [("q", 4), ("num", 3), ("idx", 2), ("count", 1.5), ("reg", 1.5)])
+            if self.p["macro_sub"] and "count" not in params.values() and rng.random() < 0.3:
+                role = "count"  # a macro that may hold subcircuit blocks often takes their repetition count as a parameter
             params[pn] = role
         pdict = dict(params)
         self._regmin = regmin
@@ -439,6 +441,10 @@ class ProgGen:
             return rng.choice(own)
         if role == "q":
             c = [n for n in self.elems if n not in params]
+            idxp = [n for n, r in params.items() if r == "idx"]
+            if c and idxp and rng.random() < 0.35:
+                # a qubit handed on to the inner macro as reg[k], k being an index parameter of the calling macro
+                return ("array_item", rng.choice(c), rng.choice(idxp))
             if self.single and rng.random() < 0.25:
                 s = [n for n in self.single if n not in params]
                 if s:
@@ -478,7 +484,7 @@ class ProgGen:
         v = rng.choice(counts)
         if params:
             own = [n for n, r in params.items() if r == "count"]
-            if own and rng.random() < 0.4:
+            if own and rng.random() < 0.6:
                 return rng.choice(own)
         c = [n for n in self.int_lets if self.lets[n] == v and not (params and n in params)]
         if c and rng.random() < self.p["p_let_count"]:
